@@ -1,5 +1,6 @@
 import Dbg.Props.C19
 import Dbg.Model.Boom
+import Dbg.Lemmas.BoomCreate
 /-! # C19 (continued) — exact lookups for every hash function a builder may produce
 
 `Props/C19` shows that an index meeting the exact-lookup contract is unique.  Here the contract itself is derived for the
@@ -155,5 +156,117 @@ example :
   | 0, hk => simp at hk; subst hk; decide
   | 1, hk => simp at hk; subst hk; decide
   | n + 2, hk => simp at hk
+
+/-! ### `create_map` included: from a minimal perfect hash to exact lookups -/
+
+theorem range_getElem?_eq_some (n i v : Nat) : (List.range n)[i]? = some v ↔ i < n ∧ v = i := by
+  by_cases h : i < n
+  · rw [List.getElem?_range h]; constructor
+    · intro e; exact ⟨h, (Option.some.inj e).symm⟩
+    · rintro ⟨_, rfl⟩; rfl
+  · rw [List.getElem?_eq_none (by simpa using h)]; constructor
+    · intro e; cases e
+    · rintro ⟨h', _⟩; exact absurd h' h
+
+theorem layoutOK_of_perm (g : G D) (side : Dir) (keys : List Seq) (vals : List Nat) (hlen : keys.length = vals.length)
+    (hp : (keys.zip vals).Perm ((endKeys g side).zip (List.range g.nodes.length))) :
+    layoutOK g side keys vals = true := by
+  have hz : ∀ (k : Seq) (v : Nat), (k, v) ∈ (endKeys g side).zip (List.range g.nodes.length) ↔
+      ∃ nd, g.nodes[v]? = some nd ∧ termKmer g.K nd.seq side = k := by
+    intro k v
+    constructor
+    · intro h
+      obtain ⟨i, hi⟩ := List.getElem?_of_mem h
+      have := List.getElem?_zip_eq_some.mp hi
+      simp only [endKeys, List.getElem?_map, Option.map_eq_some_iff, range_getElem?_eq_some] at this
+      obtain ⟨⟨nd, h1, h2⟩, _, h4⟩ := this
+      subst h4
+      exact ⟨nd, h1, h2⟩
+    · rintro ⟨nd, h1, h2⟩
+      have hv : v < g.nodes.length := by
+        rcases Nat.lt_or_ge v g.nodes.length with h | h
+        · exact h
+        · rw [List.getElem?_eq_none h] at h1; cases h1
+      apply List.mem_of_getElem? (i := v)
+      rw [List.getElem?_zip_eq_some]
+      simp only [endKeys, List.getElem?_map, h1, Option.map_some, h2, range_getElem?_eq_some]
+      exact ⟨trivial, hv, trivial⟩
+  simp only [layoutOK, Bool.and_eq_true, List.all_eq_true, List.mem_range, beq_iff_eq]
+  refine ⟨⟨hlen, ?_⟩, ?_⟩
+  · intro pos hpos
+    have hk : keys[pos]? = some keys[pos] := List.getElem?_eq_getElem hpos
+    have hv : vals[pos]? = some (vals[pos]'(hlen ▸ hpos)) := List.getElem?_eq_getElem (hlen ▸ hpos)
+    rw [hk, hv]
+    have hm : (keys[pos], vals[pos]'(hlen ▸ hpos)) ∈ keys.zip vals :=
+      List.mem_of_getElem? (i := pos) (List.getElem?_zip_eq_some.mpr ⟨hk, hv⟩)
+    obtain ⟨nd, h1, h2⟩ := (hz _ _).mp (hp.mem_iff.mp hm)
+    simp only [h1, h2, beq_self_eq_true]
+  · intro i hi
+    have hn : g.nodes[i]? = some g.nodes[i] := List.getElem?_eq_getElem hi
+    rw [hn]
+    have hm := hp.mem_iff.mpr ((hz (termKmer g.K g.nodes[i].seq side) i).mpr ⟨_, hn, rfl⟩)
+    obtain ⟨pos, hpos⟩ := List.getElem?_of_mem hm
+    have h12 := List.getElem?_zip_eq_some.mp hpos
+    have hlt : pos < keys.length := by
+      rcases Nat.lt_or_ge pos keys.length with h | h
+      · exact h
+      · rw [List.getElem?_eq_none h] at h12; cases h12.1
+    simp only [List.any_eq_true, List.mem_range, Bool.and_eq_true, beq_iff_eq]
+    exact ⟨pos, hlt, h12.1, h12.2⟩
+
+/-- **C19 (`finish` / `finish_serial`, end to end above `Mphf`).** For every graph and every pair of functions that are
+    minimal perfect hashes on the nodes' first / last k-mers - whatever they answer for other k-mers, whichever builder,
+    thread count and schedule produced them - `create_map` returns (its loops terminate, nothing panics), and the maps it
+    builds answer `search_kmer` exactly: the node whose terminal k-mer is the query, `None` when there is none. -/
+theorem C19_finish_exact (g : G D) (thl thr : Seq → Option Nat)
+    (hl : MPH thl (endKeys g .L)) (hr : MPH thr (endKeys g .R)) :
+    ∃ bl br, Map.create thl (endKeys g .L) (List.range g.nodes.length) = some bl ∧
+             Map.create thr (endKeys g .R) (List.range g.nodes.length) = some br ∧
+             ExactIndex g (index bl br) := by
+  obtain ⟨bl, a1, _, a3, a4, a5⟩ := create_spec thl (endKeys g .L) (List.range g.nodes.length) (by simp [endKeys]) hl
+  obtain ⟨br, b1, _, b3, b4, b5⟩ := create_spec thr (endKeys g .R) (List.range g.nodes.length) (by simp [endKeys]) hr
+  exact ⟨bl, br, a1, b1, C19_boom_exact g bl br a3 b3 (layoutOK_of_perm g .L _ _ a5 a4) (layoutOK_of_perm g .R _ _ b5 b4)⟩
+
+/-- a minimal perfect hash exists only on distinct keys, so `TermDistinct` is implied and the index is *the* lookup -/
+theorem C19_finish_eq_search (g : G D) (thl thr : Seq → Option Nat)
+    (hl : MPH thl (endKeys g .L)) (hr : MPH thr (endKeys g .R)) :
+    ∃ bl br, Map.create thl (endKeys g .L) (List.range g.nodes.length) = some bl ∧
+             Map.create thr (endKeys g .R) (List.range g.nodes.length) = some br ∧
+             ∀ km side, index bl br km side = searchKmer g km side := by
+  obtain ⟨bl, br, h1, h2, h3⟩ := C19_finish_exact g thl thr hl hr
+  refine ⟨bl, br, h1, h2, C19_index_unique g ?_ _ h3⟩
+  intro side i j ni nj hi hj he
+  have key : ∀ (th : Seq → Option Nat), MPH th (endKeys g side) → i = j := by
+    intro th hm
+    have hp := List.pairwise_iff_getElem.mp hm.2
+    have hil : i < g.nodes.length := by
+      rcases Nat.lt_or_ge i g.nodes.length with h | h
+      · exact h
+      · rw [List.getElem?_eq_none h] at hi; cases hi
+    have hjl : j < g.nodes.length := by
+      rcases Nat.lt_or_ge j g.nodes.length with h | h
+      · exact h
+      · rw [List.getElem?_eq_none h] at hj; cases hj
+    have ei : g.nodes[i] = ni := by rw [List.getElem?_eq_getElem hil] at hi; exact Option.some.inj hi
+    have ej : g.nodes[j] = nj := by rw [List.getElem?_eq_getElem hjl] at hj; exact Option.some.inj hj
+    rcases Nat.lt_trichotomy i j with h | h | h
+    · have := hp i j (by simpa [endKeys] using hil) (by simpa [endKeys] using hjl) h
+      simp only [endKeys, List.getElem_map, ei, ej, he] at this
+      exact absurd rfl this
+    · exact h
+    · have := hp j i (by simpa [endKeys] using hjl) (by simpa [endKeys] using hil) h
+      simp only [endKeys, List.getElem_map, ei, ej, he] at this
+      exact absurd rfl this
+  cases side with
+  | L => exact key thl hl
+  | R => exact key thr hr
+
+/-- non-vacuity of `C19_finish_exact`: three nodes, a hash that sends their first k-mers to slots 2, 0, 1 and every
+    other k-mer to slot 1; `create_map` runs to completion and puts the pairs where the hash says -/
+example :
+    let g : G Unit := ⟨2, [⟨[0, 1, 2], ⟨0⟩, ()⟩, ⟨[3, 3], ⟨0⟩, ()⟩, ⟨[2, 0, 0], ⟨0⟩, ()⟩], false⟩
+    let th : Seq → Option Nat := fun k => if k = [0, 1] then some 2 else if k = [3, 3] then some 0 else some 1
+    (Map.create th (endKeys g .L) (List.range 3)).map (fun b => (b.keys, b.vals)) = some ([[3, 3], [2, 0], [0, 1]], [1, 2, 0]) := by
+  decide
 
 end Boom
